@@ -463,9 +463,9 @@ macro_rules! field_bisim {
         type D = $ty;
         let d: Dims = $d;
         let l = <D as Subject<$f>>::layout(d);
-        let xs = alpha_alphabet::<$f>(&l, &[2.0, -0.5], 0);
+        let xs = alpha_alphabet::<$f>(&l, &[2.0, -0.5, 0.1], 0);
         // the second operand also takes the real parts of the first: ties decide min / max / clamp
-        let ys = alpha_alphabet::<$f>(&l, &[1.5, -3.0, 2.0, -0.5], l.nslots());
+        let ys = alpha_alphabet::<$f>(&l, &[1.5, -3.0, 2.0, -0.5, 10.0], l.nslots());
         type M = (&'static str, fn(D, D) -> D);
         let methods: Vec<M> = vec![
             ("powf", |a, b| ComplexField::powf(a, b)),
@@ -475,6 +475,9 @@ macro_rules! field_bisim {
             ("scale", |a, b| ComplexField::scale(a, b)),
             ("unscale", |a, b| ComplexField::unscale(a, b)),
             ("mul_add", |a, b| ComplexField::mul_add(a.clone(), b, a)),
+            // a constant addend: x * y - 1 with real parts whose product rounds (0.1 * 10): a fused and a
+            // two-step evaluation differ in the last bit, so the real part shows which path an encoding took
+            ("mul_add(x,y,-1)", |a, b| ComplexField::mul_add(a, b, <D as From<$f>>::from(-1.0))),
             ("atan2", |a, b| RealField::atan2(a, b)),
             ("min", |a, b| RealField::min(a, b)),
             ("max", |a, b| RealField::max(a, b)),
